@@ -11,6 +11,7 @@ this fragment raises AnalysisError (exit 2, never a pass).
 The analysed code is not executed: the evaluator walks its syntax tree.
 """
 import ast
+import re as _re
 import itertools
 
 from .model import (AnalysisError, ClassInfo, FuncInfo, Const, External, Module,
@@ -188,6 +189,12 @@ class Evaluator:
                     return a * b
                 if isinstance(node.op, ast.FloorDiv):
                     return a // b
+                if isinstance(node.op, ast.Mod):
+                    return a % b        # also printf-style formatting
+                if isinstance(node.op, ast.Div):
+                    return a / b
+                if isinstance(node.op, ast.Pow):
+                    return a ** b
             except Exception:
                 pass
             raise Unsupported("table evaluator: %s" % unparse(node))
@@ -196,7 +203,19 @@ class Evaluator:
         if isinstance(node, ast.Call):
             return self.call(node)
         if isinstance(node, ast.JoinedStr):
-            return "<fstring>"
+            parts = []
+            for v in node.values:
+                if isinstance(v, ast.Constant):
+                    parts.append(str(v.value))
+                elif isinstance(v, ast.FormattedValue) and \
+                        v.format_spec is None:
+                    x = self.ev(v.value)
+                    if isinstance(x, Abs):
+                        return "<fstring>"
+                    parts.append(str(x) if v.conversion != 114 else repr(x))
+                else:
+                    return "<fstring>"
+            return "".join(parts)
         if isinstance(node, (ast.ListComp, ast.GeneratorExp, ast.SetComp)):
             out = []
             self.comp(node.generators, 0, node.elt, out)
@@ -494,6 +513,11 @@ class Evaluator:
                     if o.cls is not None:
                         return o.cls.find_attr(a) is not None or \
                             o.cls.find_method(a) is not None
+        if dotted(f) == "re.compile" and len(node.args) == 1 and \
+                not node.keywords:
+            pat = self.ev(node.args[0])
+            if isinstance(pat, str):
+                return _re.compile(pat)
         args = [self.ev(a) for a in node.args]
         kwargs = {k.arg: self.ev(k.value) for k in node.keywords
                   if k.arg is not None}
@@ -537,6 +561,15 @@ class Evaluator:
                         if m is not None:
                             return self.inline(m, [me] + args, kwargs)
                     raise Unsupported("table evaluator: super().%s" % f.attr)
+                if isinstance(base, _re.Pattern) and \
+                        f.attr in ("match", "search", "fullmatch"):
+                    # a precompiled pattern (module constant)
+                    if args and all(isinstance(a, str) for a in args):
+                        return getattr(base, f.attr)(*args)
+                    r = getattr(self.hooks, "regex_on_abstract",
+                                NotImplemented)
+                    if r is not NotImplemented:
+                        return r
                 if not isinstance(base, Abs):
                     r = self.builtin_method(base, f.attr, args)
                     if r is not NotImplemented:
